@@ -6,7 +6,7 @@ import TongoModel.Boc
 import TongoModel.PoolSelect
 import TongoProofs.Lemmas.MinBitsGen
 /-! Ties ("gen = model") between the definitions REGENERATED on every run by translator X4 (`TongoGen/CellDesc.lean`,
-`TongoGen/BocHeader.lean`, `TongoGen/PoolSeqno.lean`, `TongoGen/MinBits.lean`, Go integers as `BitVec n`) and the hand
+`TongoGen/BocHeader.lean`, `TongoGen/MinBits.lean`, Go integers as `BitVec n`) and the hand
 models on `Nat`/`UInt8` used by the property theorems (`TongoModel/Cell.lean`, `Boc.lean`, `PoolSelect.lean`,
 `BitString.lean`). A change to the Go source changes the regenerated file and breaks the corresponding equation.
 The property files C02, C06, C07, C13 restate these theorems. Core Lean only, kernel-checked. -/
